@@ -725,7 +725,6 @@ static int rtr_handle_cache_response_pdu(struct rtr_socket *rtr_socket, char *pd
 		if (rtr_socket->last_update != 0) {
 			RTR_DBG1("Resetting Socket.");
 
-			rtr_socket->last_update = 0;
 			rtr_socket->is_resetting = true;
 		}
 		rtr_socket->session_id = cr_pdu->session_id;
